@@ -116,12 +116,25 @@ C_RoundTrip(ev) ==
      /\ T[ev.hprev].ph = ev.ph /\ Len(ev.s) = Len(T[ev.hprev].out)
      /\ ev.hkeep <= Len(ev.s) /\ SubSeq(ev.s, 1, ev.hkeep) = SubSeq(T[ev.hprev].out, 1, ev.hkeep))
   => (ObservedSuccess(ev) /\ ev.out = T[ev.hprev].out)
-\* C03: a request that differs from an earlier one in a significant way yields a different digest.
-\* dprev = index of an earlier call with the same method whose digest part the driver found equal
+\* C03: a request that differs from its base request (bprev, given by the driver, verified here)
+\* inside what the method documents as significant -- phrase key, canonical salt or cost -- never
+\* reproduces the base's digest.  Phrases are logged as byte arrays (pc) for these events.
+SigDiff(a, b, oa, ob) ==
+  /\ oa.m = ob.m /\ oa.k = "ok" /\ ob.k = "ok"
+  /\ S!QuirkFree(oa.m, a.pc) /\ S!QuirkFree(ob.m, b.pc)
+  /\ (oa.canon # ob.canon \/ S!PhraseKey(oa.m, a.pc, Len(a.s)) # S!PhraseKey(ob.m, b.pc, Len(b.s)))
 C_Distinct(ev) ==
-  (ev.dprev > 0 /\ ev.dprev < l /\ IsHashEv(T[ev.dprev].e) /\ ObservedSuccess(T[ev.dprev]) /\ ObservedSuccess(ev)
-     /\ ev.sig = 1 /\ ~SameRequest(T[ev.dprev], ev))
-  => T[ev.dprev].out # ev.out
+  (ev.bprev > 0 /\ ev.bprev < l /\ IsHashEv(T[ev.bprev].e) /\ ObservedSuccess(T[ev.bprev]) /\ ObservedSuccess(ev)
+     /\ SigDiff(T[ev.bprev], ev, SpecOutcome(T[ev.bprev]), SpecOutcome(ev)))
+  => LET m == SpecOutcome(ev).m IN
+     S!DigestTail(m, T[ev.bprev].out, T[ev.bprev].pl, Len(T[ev.bprev].s)) # S!DigestTail(m, ev.out, ev.pl, Len(ev.s))
+\* the converse (documented insignificance) is not a property here: counted as a divergence only
+C_SameKeySame(ev) ==
+  (ev.bprev > 0 /\ ev.bprev < l /\ IsHashEv(T[ev.bprev].e) /\ ObservedSuccess(T[ev.bprev]) /\ ObservedSuccess(ev)
+     /\ SpecOutcome(ev).k = "ok" /\ SpecOutcome(T[ev.bprev]).k = "ok" /\ SpecOutcome(ev).m = SpecOutcome(T[ev.bprev]).m
+     /\ SpecOutcome(ev).canon = SpecOutcome(T[ev.bprev]).canon
+     /\ S!PhraseKey(SpecOutcome(ev).m, ev.pc, Len(ev.s)) = S!PhraseKey(SpecOutcome(ev).m, T[ev.bprev].pc, Len(T[ev.bprev].s)))
+  => ev.out = T[ev.bprev].out
 \* C10: a setting produced by crypt_gensalt* hashes successfully and is kept literally in the hash
 C_Literal(ev) == ev.gs = 1 => (ObservedSuccess(ev) /\ S!StartsWith(ev.out, ev.s))
 \* C14: the handle after crypt_ra
@@ -169,6 +182,7 @@ JudgeHash(ev) ==
               ELSE IF oc.spec = "ok" /\ ~ObservedSuccess(ev) /\ ~AnyFault(ev) /\ SzClass(ev.size) \in {"sizeof", "big"}
                  THEN {[l |-> l, d |-> "model-ok-code-fail"]}
               ELSE IF oc.spec = "fail" /\ ObservedSuccess(ev) THEN {[l |-> l, d |-> "model-fail-code-ok"]}
+              ELSE IF ~C_SameKeySame(ev) THEN {[l |-> l, d |-> "insignificant-change-changed-hash"]}
               ELSE IF oc.spec = "fail" /\ ~ObservedSuccess(ev) /\ ev.errno # oc.err /\ SzClass(ev.size) \in {"sizeof", "big"}
                  THEN {[l |-> l, d |-> "errno"]}
               ELSE {},
